@@ -396,13 +396,15 @@ class GateMonitor(WireTracker):
     def acceptable(self, variant):
         if variant == "relay":
             return True
+        if variant == "vsa":
+            return bool(self.sc.cfg.get("apps"))
         return bool(variant) and variant.startswith("p") and bool(self.sc.cfg.get("apps"))
 
     def judge_cea(self, s, st, variant, f):
         node = self.sc.nw.node
         vs = []
         rcode = f.result_code
-        if variant.startswith("p") and not self.sc.cfg.get("apps"):
+        if (variant.startswith("p") or variant == "vsa") and not self.sc.cfg.get("apps"):
             variant = "nocommon"        # a node without applications shares nothing with a non-relay peer
         if variant == "unknown":
             if rcode != 3010:
